@@ -2117,21 +2117,23 @@ class FileSet:
             other.find(start, end, filters=other_filters)
         )
 
-        # Convert the times (datetime objects) to seconds (integer)
+        # Convert the times (datetime objects) to microseconds (integer), the
+        # resolution of datetime objects
         times1 = np.asarray([
             file.times
             for file in files1
-        ]).astype("M8[s]").astype(int).tolist()
+        ]).astype("M8[us]").astype(int).tolist()
         times2 = np.asarray([
             file.times
             for file in files2
-        ]).astype("M8[s]").astype(int)
+        ]).astype("M8[us]").astype(int)
 
         if max_interval is not None:
             # Expand the intervals of the secondary fileset to close-in-time
             # intervals.
-            times2[:, 0] -= int(max_interval.total_seconds())
-            times2[:, 1] += int(max_interval.total_seconds())
+            interval = max_interval // timedelta(microseconds=1)
+            times2[:, 0] -= interval
+            times2[:, 1] += interval
 
         # Search for all overlapping intervals:
         tree = IntervalTree(times2)
